@@ -127,6 +127,9 @@ impl IndexRead {
                 entries
                     .into_iter()
                     .filter(|entry| entry.is_file())
+                    // A zero-length file is what an interrupted write leaves behind:
+                    // it holds nothing, and is treated as not present.
+                    .filter(|entry| entry.len != Some(0))
                     .filter_map(|entry| entry.name.parse::<u32>().ok())
                     .sorted(),
             )
@@ -153,6 +156,7 @@ impl IndexRead {
             hunks: hunks.into_iter(),
             index: self,
             after: None,
+            errors: Vec::new(),
         })
     }
 }
@@ -165,6 +169,9 @@ pub struct IndexHunkIter {
     pub index: IndexRead,
     /// If set, yield only entries ordered after this apath.
     after: Option<Apath>,
+    /// Errors from hunks that were listed but could not be read or decoded, and
+    /// were therefore skipped. The caller should take and report them.
+    pub errors: Vec<Error>,
 }
 
 impl IndexHunkIter {
@@ -175,9 +182,17 @@ impl IndexHunkIter {
         loop {
             let hunk_number = self.hunks.next()?;
             let entries = match self.index.read_hunk(hunk_number).await {
-                Ok(None) => return None,
+                Ok(None) => {
+                    self.errors.push(Error::InvalidMetadata {
+                        details: format!("Index hunk {hunk_number} disappeared while reading"),
+                    });
+                    return None;
+                }
                 Ok(Some(entries)) => entries,
-                Err(_err) => {
+                Err(err) => {
+                    // Carry on with the other hunks, but don't lose the error: the
+                    // entries in this hunk are missing from what we return.
+                    self.errors.push(err);
                     continue;
                 }
             };
@@ -228,6 +243,11 @@ impl IndexHunkIter {
             entries.extend(hunk);
         }
         Ok(entries)
+    }
+
+    /// The numbers of the hunks not yet read, in the order they will be read.
+    pub fn remaining_hunk_numbers(&self) -> &[u32] {
+        self.hunks.as_slice()
     }
 
     /// Advance self so that it returns only entries with apaths ordered after `apath`.
